@@ -41,6 +41,29 @@ func gen(t *rapid.T) Case {
 		}
 	}
 	c.G = vkit.GenGJ(t, o)
+	if c.Neg == "" && rapid.IntRange(0, 11).Draw(t, "regular") == 7 {
+		// many polygons of one build (a tiled layer): 8-24 polygons with the same number of rings and shells of the same
+		// number of points, the holes with point counts of their own
+		np, nr, ns := rapid.IntRange(8, 24).Draw(t, "regnp"), rapid.IntRange(1, 3).Draw(t, "regnr"), rapid.IntRange(3, 6).Draw(t, "regns")
+		cf := vkit.CoordFinite()
+		var polys [][][]vkit.P2
+		for i := 0; i < np; i++ {
+			var rings [][]vkit.P2
+			for j := 0; j < nr; j++ {
+				n := ns
+				if j > 0 {
+					n = rapid.IntRange(1, 8).Draw(t, "regnh")
+				}
+				r := make([]vkit.P2, n)
+				for k := range r {
+					r[k] = vkit.MkP(cf.Draw(t, "rx"), cf.Draw(t, "ry"))
+				}
+				rings = append(rings, r)
+			}
+			polys = append(polys, rings)
+		}
+		c.G = vkit.GJ{T: "MultiPolygon", Polys: polys}
+	}
 	if c.Neg == "nonfinite" {
 		bad := rapid.SampledFrom([]float64{math.NaN(), math.Inf(1), math.Inf(-1)}).Draw(t, "bad")
 		poison(t, &c.G, bad)
